@@ -147,8 +147,11 @@ def gen_scenario(rng: Any, i: int) -> dict:
             a = rng.choice(["ok", "temp", "temp", "perm", "arb", "arb"])
             script.append(["temp", rng.choice([0.5, 1.0, 2.0, 3.0])] if a == "temp" else a)
         h: dict[str, Any] = {"kind": kind, "id": f"{kind[0]}{k}", "opts": opts, "script": script, "default": "ok"}
-        if kind in ("create", "update") and rng.random() < 0.25:
-            h["sub"] = [{"id": f"s{j}", "script": [rng.choice(["ok", ["temp", 1.0], "perm"])]} for j in range(rng.choice([1, 2]))]
+        if kind in ("create", "update") and rng.random() < 0.35:
+            h["sub"] = [{"id": f"s{j}", "script": [rng.choice(["ok", ["temp", 1.0], ["temp", 0.5], "perm"])
+                                                   for _ in range(rng.choice([1, 1, 2]))]} for j in range(rng.choice([1, 2, 3]))]
+            # the parent runs its children on "ok"; a later perm/temp/arb pass does not reach them
+            h["script"] = ["ok"] * rng.choice([0, 1, 2, 3]) + [rng.choice(["ok", "perm", "arb", ["temp", 1.0]])]
         handlers.append(h)
     t = 1.0
     timeline: list[list] = [[t, "create", "a", {"spec": {"x": 0}, "metadata": {"labels": {"l": "0"}}}]]
@@ -170,6 +173,19 @@ def gen_scenario(rng: Any, i: int) -> dict:
     if rng.random() < 0.3:
         sc["status_subresource"] = True
     return sc
+
+
+NON_PROGRESS_KEYS = {"last-handled-configuration", "touch-dummy"}
+
+
+def _annotations_after(cyc: dict) -> dict | None:
+    """Annotations of the object after this cycle's merge-patch (independent RFC 7386 application)."""
+    ap = cyc.get("apply")
+    if not ap:
+        return None
+    from .. import rfc
+    patched = rfc.merge_patch(cyc["body"], ap["patch"])
+    return (patched.get("metadata") or {}).get("annotations") or {}
 
 
 def _own_record(body: dict, hid: str) -> dict | None:
@@ -210,6 +226,28 @@ def oracle(ctx: Ctx, sc: dict, tr: dict) -> None:
             fin_after[hid] = bool((before and (before["success"] or before["failure"])) or (o and o["final"]))
         all_fin = all(fin_after.values())
         left = [h for h in p["owned"] if p["P_after"].get(h) is not None]
+        after_ann = _annotations_after(cyc)
+        if after_ann is not None:
+            prog = sorted(k for k in after_ann if k.startswith(OWN_PREFIX) and k[len(OWN_PREFIX):] not in NON_PROGRESS_KEYS)
+            if all_fin and prog:
+                ctx.oracle_fail(f"the handling cycle is closed but progress records remain on the object: {prog}",
+                                {"scenario": sc, "cycle": cyc["i"]},
+                                {"site": "process_changing_cause", "shape": "progress annotations left after closing"})
+            if not all_fin:
+                for k in prog:
+                    hid = k[len(OWN_PREFIX):]
+                    if "." not in hid:
+                        continue
+                    parent = hid.rsplit(".", 1)[0]
+                    prec = after_ann.get(OWN_PREFIX + parent)
+                    try:
+                        subrefs = (json.loads(prec) or {}).get("subrefs") or [] if prec else None
+                    except ValueError:
+                        subrefs = None
+                    if subrefs is not None and hid.replace(".", "/") not in subrefs:
+                        ctx.oracle_fail(f"sub-handler record {k} is not referenced by its parent's record (it would survive the closing purge)",
+                                        {"scenario": sc, "cycle": cyc["i"], "parent_subrefs": subrefs},
+                                        {"site": "execute_handler_once", "shape": "sub-handler record not covered by parent subrefs"})
         if all_fin and left:
             ctx.oracle_fail(f"all selected handlers finished but progress records remain: {left}",
                             {"scenario": sc, "cycle": cyc["i"]}, {"site": "process_changing_cause", "shape": "closed without purge"})
